@@ -83,7 +83,8 @@ func JobsFor(prop, tier string) []Job {
 		return append(histJobs("sort", 8000, 400000, 800, 30000, []string{"none", "none", "restarts", "faults"}, stdRealFaults),
 			Job{Engine: "bigbulk", Backends: []string{"mem-sw-livecur", "mem-opt-snapcur", "bbolt", "badger-mem"}, Quick: 160, Thorough: 4000, Params: map[string]string{"maxN": "2500", "reads": "1"}})
 	case "C09":
-		return histJobs("derived", 8000, 400000, 800, 30000, stdMemFaults, stdRealFaults)
+		return append(histJobs("derived", 8000, 400000, 800, 30000, stdMemFaults, stdRealFaults),
+			Job{Engine: "bigbulk", Backends: []string{"mem-sw-livecur", "mem-opt-snapcur", "bbolt", "badger-mem"}, Quick: 120, Thorough: 3000, Params: map[string]string{"maxN": "1500", "reads": "1", "derived": "1"}})
 	case "C11":
 		return histJobs("roundtrip", 8000, 400000, 800, 30000, []string{"none", "restarts", "crashes"}, []string{"restarts"})
 	case "C12":
